@@ -201,6 +201,72 @@ def run(ctx):
                     ctx.violation("C09/fp-constant/value-changed", "%s of %s with the %s constant of bits %#x came back as %r (expected %r)" % (
                         bad[0], how, fmt, b, bad[1], want), {"fmt": fmt, "bits": b, "how": how})
                     break
+    # wide constants (more than 64 bits: they cross the Z3 boundary as decimal strings): many simplifications in one process, the
+    # results kept alive, each compared with Python integers on every assignment of two 3-bit unknowns
+    kept_wide, nwide, fresh_wide = [], 0, 0
+    for it in range(ctx.pick(250, 4000)):
+        w = rng.choice([65, 72, 96, 128, 128, 200, 256])
+        ux, uy = ("zext:%d" % (w - 3), ("bvs", "wx", 3)), ("zext:%d" % (w - 3), ("bvs", "wy", 3))
+
+        def wconst():
+            r_ = rng.random()
+            v = rng.getrandbits(w) if r_ < 0.6 else (1 << w) - 1 - rng.getrandbits(8) if r_ < 0.8 else (1 << (w - 1)) + rng.getrandbits(16)
+            return ("bvv", v % (1 << w), w)
+
+        ones = ("bvv", (1 << w) - 1, w)
+
+        def hidden_const():
+            """variable-free in value but not in form: only Z3 finds the constant, which is then a numeral it has just made"""
+            u, v = rng.sample([ux, uy], 2)
+            return rng.choice([("or", u, ones), ("xor", u, ("not", u)), ("sub", ("mul", u, v), ("mul", v, u)), ("add", ("sub", u, v), ("sub", v, u)),
+                               ("ite", ("ule", u, ones), wconst(), v), ("and", ("or", u, ones), wconst())])
+
+        def wtree(d):
+            if d == 0:
+                return rng.choice([ux, uy, wconst(), wconst()]) if rng.random() < 0.6 else hidden_const()
+            k_ = rng.random()
+            if k_ < 0.15:
+                return (rng.choice(["neg", "not"]), wtree(d - 1))
+            return (rng.choice(["add", "sub", "sub", "xor", "or", "and", "mul"]), wtree(d - 1), wtree(d - 1))
+        tree = wtree(rng.choice([1, 2, 3]))
+        if rng.random() < 0.4:
+            tree = (rng.choice(["eq", "ne", "ult", "uge", "slt"]), tree, wtree(1))
+        a, log, e = X.build_case(tree)
+        if e is not None or a.op in ("BVV", "BoolV"):
+            continue
+        at = E.from_ast(a)
+        ctx.count(); nwide += 1
+        consts_in = {l.args[0] for l in a.leaf_asts() if l.op == "BVV"}
+        for fn_name, fn in (("backends.z3.simplify", bz.simplify), ("claripy.simplify", claripy.simplify)):
+            try:
+                s_ = fn(a)
+            except claripy.errors.ClaripyError as ex:
+                ctx.violation("C09/%s/raises-%s/wide" % (fn_name, type(ex).__name__), "%s(%s) raised %r" % (fn_name, E.sexpr(at)[:300], ex), {"tree": at, "fn": fn_name})
+                continue
+            kept_wide.append(s_)
+            if any(l.op == "BVV" and l.args[0] >= (1 << 64) and l.args[0] not in consts_in for l in s_.leaf_asts()):
+                fresh_wide += 1
+                ctx.distinct(a.hash())
+            if type(s_) is not type(a) or getattr(s_, "length", None) != getattr(a, "length", None):
+                ctx.violation("C09/%s/sort-changed/wide" % fn_name, "%s(%s) = %r: a %s of length %r became a %s of length %r (simplification #%d of this run)" % (
+                    fn_name, E.sexpr(at)[:300], s_, type(a).__name__, getattr(a, "length", None), type(s_).__name__, getattr(s_, "length", None), len(kept_wide)),
+                    {"tree": at, "fn": fn_name})
+                break
+            st = E.from_ast(s_)
+
+            def ev_(t_, vx, vy):
+                try:
+                    return E.ev(t_, {"wx": vx, "wy": vy})
+                except E.Unsupported as ex_:
+                    return ("ill-typed", str(ex_))
+            bad = next(((vx, vy) for vx in range(8) for vy in range(8) if ev_(at, vx, vy) != ev_(st, vx, vy)), None)
+            if bad is not None:
+                ctx.violation("C09/%s/not-equivalent/wide" % fn_name, "%s(%s) = %s differs at wx=%d wy=%d (simplification #%d of this run)" % (
+                    fn_name, E.sexpr(at)[:300], E.sexpr(st)[:300], bad[0], bad[1], len(kept_wide)), {"tree": at, "fn": fn_name, "env": {"wx": bad[0], "wy": bad[1]}})
+                break
+        if len(kept_wide) > 3000:
+            del kept_wide[:1500]
+    dist["W.wide_constants"] = nwide
     # Solver.simplify keeps the model set
     for it in range(ctx.pick(60, 800)):
         w = 3
@@ -232,7 +298,8 @@ def run(ctx):
                     cls.__name__, cons, sorted(before - after)[:4], sorted(after - before)[:4]), {"solver": cls.__name__, "constraints": [repr(c) for c in cons]})
     ctx.cov["traces_validated_against_impl"] = sum(dist.values())
     ctx.cov["input_distribution"] = {"templates": dict(dist), "z3_kinds_seen_after_simplify": dict(kinds_seen),
-                                     "roundtrip_identical_objects": identical, "fp_constants_round_tripped": nconst}
+                                     "roundtrip_identical_objects": identical, "fp_constants_round_tripped": nconst, "wide_expressions": nwide,
+                                     "wide_results_with_a_new_wide_constant": fresh_wide}
     ctx.sample({"z3_kinds_seen": sorted(kinds_seen)[:20]})
 
 
